@@ -376,8 +376,12 @@ func runB(c CaseB) (res ev.Result) {
 			}
 			if !inOpen {
 				if op.Level == "drv" {
-					if err != drivers.ErrPortClosed {
-						return fail("In.Listen on a closed port returned %v, want ErrPortClosed", err)
+					// not part of the statement: any error is fine; a driver that accepts the
+					// listener anyway gets it stopped again at once
+					if err == nil && stop != nil {
+						if s := call(where+" stop", stop); s != "" {
+							return fail("%s", s)
+						}
 					}
 					continue
 				}
@@ -595,7 +599,7 @@ func genB(t *rapid.T) CaseB {
 }
 
 var partB = ev.NewCheck("C17", "midicatdrv-histories",
-	"rapid (run in the race-detector build): histories of 4..25 operations on the process-backed driver against the stand-in helper binary: out.Open/Close (also twice), bursts of 1..4 concurrent sender goroutines with 1..12 messages each, out.Close while senders are running, in.Open/Close (also twice), In.Listen or midi.ListenTo, stop (also twice, also while records are flowing), injection of 1..30 records (3-byte and 2-byte messages, unique time stamps) into the helper; the harness is the cable (it reads what the out helper received and writes what the in helper emits); oracle: every line sent with a nil result on the open port reaches the helper exactly once and per sender in order, Send on a closed port gives ErrPortClosed and nothing arrives, records injected while a listener is active (and drained) reach exactly that listener once and in order (in-flight records from a listener-less gap may precede them, at most once), a stopped listener is never called again, Listen works again after stop, Listen on a closed port gives ErrPortClosed, Open/Close/stop are idempotent, every call returns within 20 s, no panic, no data race report; non-trivial = >= 2 concurrent senders and a stop while records are flowing; distinct by case hash",
+	"rapid (run in the race-detector build): histories of 4..25 operations on the process-backed driver against the stand-in helper binary: out.Open/Close (also twice), bursts of 1..4 concurrent sender goroutines with 1..12 messages each, out.Close while senders are running, in.Open/Close (also twice), In.Listen or midi.ListenTo, stop (also twice, also while records are flowing), injection of 1..30 records (3-byte and 2-byte messages, unique time stamps) into the helper; the harness is the cable (it reads what the out helper received and writes what the in helper emits); oracle: every line sent with a nil result on the open port reaches the helper exactly once and per sender in order, Send on a closed port gives ErrPortClosed and nothing arrives, records injected while a listener is active (and drained) reach exactly that listener once and in order (in-flight records from a listener-less gap may precede them, at most once), a stopped listener is never called again, Listen works again after stop, Listen on a closed port does not block or panic, Open/Close/stop are idempotent, every call returns within 20 s, no panic, no data race report; non-trivial = >= 2 concurrent senders and a stop while records are flowing; distinct by case hash",
 	genB, runB)
 
 // TestRaceMidicatHistories runs in the race build only (bin/verif starts that binary with VERIF_RACE=1).
